@@ -1,0 +1,56 @@
+//go:build verif
+
+// Copyright Istio Authors
+//
+// Licensed under the Apache License, Version 2.0 (the "License");
+// you may not use this file except in compliance with the License.
+// You may obtain a copy of the License at
+//
+//     http://www.apache.org/licenses/LICENSE-2.0
+//
+// Unless required by applicable law or agreed to in writing, software
+// distributed under the License is distributed on an "AS IS" BASIS,
+// WITHOUT WARRANTIES OR CONDITIONS OF ANY KIND, either express or implied.
+// See the License for the specific language governing permissions and
+// limitations under the License.
+
+package cache
+
+import (
+	"time"
+
+	"istio.io/istio/pkg/queue"
+	"istio.io/istio/pkg/security"
+)
+
+// Accessors for the C18 verification harness (/verif/harness/c18). Compiled only with the build
+// tag `verif`; nothing here changes the behaviour of the package.
+
+// VerifRotateTime calls the unexported rotateTime.
+func VerifRotateTime(secret security.SecretItem, graceRatio float64, graceRatioJitter float64) time.Duration {
+	return rotateTime(secret, graceRatio, graceRatioJitter)
+}
+
+// VerifSetQueue replaces the delayed queue that registerSecret pushes rotation tasks to, so that a
+// harness can record the scheduled delays and run the real rotation callbacks at chosen instants.
+// Must be called before the first GenerateSecret.
+func VerifSetQueue(sc *SecretManagerClient, q queue.Delayed) {
+	sc.queue = q
+}
+
+// VerifCachedWorkload returns the cached workload item (nil when the cache is empty).
+func VerifCachedWorkload(sc *SecretManagerClient) *security.SecretItem {
+	return sc.cache.GetWorkload()
+}
+
+// VerifCachedRoot returns the last root recorded by GenerateSecret for comparison (cache.certRoot).
+func VerifCachedRoot(sc *SecretManagerClient) []byte {
+	return sc.cache.GetRoot()
+}
+
+// VerifConfigTrustBundle returns the configured trust bundle.
+func VerifConfigTrustBundle(sc *SecretManagerClient) []byte {
+	sc.configTrustBundleMutex.RLock()
+	defer sc.configTrustBundleMutex.RUnlock()
+	return sc.configTrustBundle
+}
